@@ -56,6 +56,19 @@ CLAIMED["C07"] = (
     "DESIGN.md §3 C07",
 )
 
+CLAIMED["C16"] = (
+    "interval-domain abstract interpretation (sa/ranges.py: + - * / fmod, arctan2(sin,cos) wrap, if-refinement, syntactic inlining of callees and property getters) of AngleInterval.contains/__contains__ under the class invariant, plus canonicalised structural rules on Interval predicates, arithmetic and setters",
+    "Proves, for all admissible intervals (start,end in [-2pi,2pi], 0 <= end-start < 2pi) and all real query values, that no assert in the containment code can fail, that the compared offset and the bound both range over [0, 2pi) (so the test is a modulo-2pi offset against the true length, not a difference wrapped to [-pi,pi]) with a non-strict comparison; decides closedness and operand pairing of Interval.contains/overlaps/intersection, the end swap of * and / exactly in the non-positive branch, construction of every arithmetic result through the checking constructor, and rejection of start > end. Floating-point rounding at the end points is not decided.",
+    "Trusts the transfer functions of the interpreter (math.fmod sign/magnitude, arctan2(sin x, cos x) in [-pi, pi]) and that AngleInterval's constructor establishes the invariant (checked structurally under REJECT).",
+    "DESIGN.md §2 E-RANGE, §3 C16",
+)
+CLAIMED["C08"] = (
+    "ast rules on GoalRegion/PlanningProblem: derived-property clobber analysis (stores into dependencies of computed State properties vs later reads, through returned aliases, with receiver classes from annotations), dispatch typing, field-table agreement, conjunction/disjunction structure, attribute pairing, enumerate-index provenance",
+    "Decides the structure of the goal check: no computed state property (PMState.orientation, ExtendedPMState.velocity_y) is read after one of its dependencies was overwritten on the same object; int and float are dispatched alike; the attributes a goal state may constrain are exactly those is_reached checks, each conjoined into the per-goal flag, results disjoined over goal states; each check pairs state.X with goal.X on the harmonised state; speed is norm(vx, vy) and heading atan2(vy, vx) at every site; goal_reached returns the index enumerated with the state that reached the goal. Containment arithmetic is C16; shape containment is C06.",
+    "Trusts annotations (TraceState union) for which classes a state variable may have, and the naming of the four checked attributes.",
+    "DESIGN.md §3 C08",
+)
+
 NOT_APPLICABLE = {
     "C17": "modular arithmetic over runtime integers (%, cumsum, argmax): no sound static argument in reach; the only structural part (memo freshness) is decided under C11, and 'TrafficLight delegates to its cycle' is sufficient but not necessary, so a rule on it would fire on behaviour-preserving edits",
 }
